@@ -231,13 +231,15 @@ def trial_payload(shot):
 class Ledger:
     """Single-copy log of every trial executed, per process and identity."""
 
-    def __init__(self, sim, keep_shots=False, trial_dt=None, on_trial=None):
+    def __init__(self, sim, keep_shots=False, trial_dt=None, on_trial=None,
+                 before_trial=None):
         self.sim = sim
         self.by_proc = {}      # pid -> identity -> [payload]
         self.keep_shots = keep_shots
         self.shots = []
         self.trial_dt = trial_dt
         self.on_trial = on_trial
+        self.before_trial = before_trial
         self._real = None
 
     def executed(self, pid, ident):
@@ -253,6 +255,8 @@ class Ledger:
             proc = current()
             if proc is not None and proc.dead:
                 raise SimKill()
+            if proc is not None and ledger.before_trial is not None:
+                ledger.before_trial(proc)
             shot = real(code, error_model, decoder, error_rate, rng=rng)
             if proc is None:
                 return shot
